@@ -290,9 +290,15 @@ def series_oracle(case):
                       "excludenull:none-removed")
         if keep.sum() >= 2 and nondegenerate(to2[keep]):
             r2 = ref_scores(to2[keep], ts2[keep], btype)
-            g2 = {"nse": metrics.nse(o2, s2, trans, excludenull=True),
-                  "kge": metrics.kge(o2, s2, trans, excludenull=True),
-                  "bias": metrics.bias(o2, s2, trans, excludenull=True,
+            # the switch as a Python bool or a numpy bool (the result of a
+            # test on an array)
+            flag = [True, np.True_, np.bool_(removed >= 0), True][
+                (removed + len(o2)) % 4]
+            labels.append("excludenull-given-as:" + (
+                "python-bool" if type(flag) is bool else "numpy-bool"))
+            g2 = {"nse": metrics.nse(o2, s2, trans, excludenull=flag),
+                  "kge": metrics.kge(o2, s2, trans, excludenull=flag),
+                  "bias": metrics.bias(o2, s2, trans, excludenull=flag,
                                        type=btype)}
             for kk, v in r2.items():
                 same(float(g2[kk]), v, tol,
@@ -315,7 +321,8 @@ def series_oracle(case):
                     rc = pearson(tob[kc], tsm[kc])
                 else:
                     rc = pearson(rankdata(tob[kc]), rankdata(tsm[kc]))
-                cv = metrics.corr(o2, e2, trans, excludenull=True,
+                cv = metrics.corr(o2, e2, trans,
+                                  excludenull=[True, np.True_][len(o2) % 2],
                                   stat=case["cstat"], type=case["ctype"])
                 same(float(cv), rc, 1e-9,
                      "corr(excludenull=True) vs complete pairs",
